@@ -7,6 +7,7 @@ import (
 	"fmt"
 	"strings"
 	"sync"
+	"sync/atomic"
 	"testing"
 	"testing/synctest"
 
@@ -25,7 +26,13 @@ import (
 type c15Case struct {
 	Conns  [][][]string `json:"connections"`
 	Direct bool         `json:"direct_calls"` // call HandleRequest from goroutines instead of going through a Server
+	// ItemMiddleware: a batch item middleware registered on the executor: "" (none) | pass | absorb (an error of the
+	// handler is turned into a successful item) | retry (an error makes it run the item once more)
+	ItemMiddleware string `json:"item_middleware,omitempty"`
 }
+
+// c15MW is the middleware in force while c15Check runs (one case at a time per process).
+var c15MW string
 
 // barrier is a reusable rendezvous of n parties built on channels (durably blocking).
 type barrier struct {
@@ -65,8 +72,32 @@ func (b *barrier) wait() {
 	}
 }
 
-func c15Executor(b *barrier) *kmipserver.BatchExecutor {
+func c15Executor(b *barrier, mw string) *kmipserver.BatchExecutor {
 	exec := kmipserver.NewBatchExecutor()
+	var calls sync.Map // item identifier -> *int32: invocations of the handler for that item
+	switch mw {
+	case "pass":
+		exec.BatchItemUse(func(next kmipserver.BatchItemNext, ctx context.Context, bi *kmip.RequestBatchItem) (*kmip.ResponseBatchItem, error) {
+			return next(ctx, bi)
+		})
+	case "absorb":
+		exec.BatchItemUse(func(next kmipserver.BatchItemNext, ctx context.Context, bi *kmip.RequestBatchItem) (*kmip.ResponseBatchItem, error) {
+			r, err := next(ctx, bi)
+			if err != nil {
+				r.ResponsePayload = &payloads.ActivateResponsePayload{UniqueIdentifier: "obs=<absorbed>"}
+				return r, nil
+			}
+			return r, nil
+		})
+	case "retry":
+		exec.BatchItemUse(func(next kmipserver.BatchItemNext, ctx context.Context, bi *kmip.RequestBatchItem) (*kmip.ResponseBatchItem, error) {
+			r, err := next(ctx, bi)
+			if err != nil {
+				return next(ctx, bi)
+			}
+			return r, nil
+		})
+	}
 	exec.Route(kmip.OperationActivate, kmipserver.HandleFunc(func(ctx context.Context, req *payloads.ActivateRequestPayload) (*payloads.ActivateResponsePayload, error) {
 		// identifier: "<value>#<action>"
 		parts := strings.SplitN(req.UniqueIdentifier, "#", 2)
@@ -85,6 +116,11 @@ func c15Executor(b *barrier) *kmipserver.BatchExecutor {
 			kmipserver.ClearIdPlaceholder(ctx)
 		case "fail":
 			return nil, errors.New("failed on purpose; observed=" + obs)
+		case "failonce":
+			n, _ := calls.LoadOrStore(req.UniqueIdentifier, new(int32))
+			if atomic.AddInt32(n.(*int32), 1) == 1 {
+				return nil, errors.New("failed on purpose (first run); observed=" + obs)
+			}
 		case "setfail":
 			kmipserver.SetIdPlaceholder(ctx, val)
 			return nil, errors.New("failed on purpose; observed=" + obs)
@@ -100,6 +136,7 @@ func c15Executor(b *barrier) *kmipserver.BatchExecutor {
 
 // c15Model returns, per item, the set of acceptable observations (nil = the item must fail).
 func c15Model(conn, reqIdx int, actions []string) (accept [][]string) {
+	mw := c15MW
 	ph := ""
 	afterFailure := "" // value that may still be visible after an intervening failed item (the statement does not say)
 	maybe := false
@@ -109,6 +146,26 @@ func c15Model(conn, reqIdx int, actions []string) (accept [][]string) {
 		obs := []string{ph}
 		if maybe {
 			obs = append(obs, afterFailure)
+		}
+		if mw == "absorb" {
+			// the middleware turns the handler's error into a successful item: nothing fails, nothing is cleared
+			switch {
+			case a == "fail" || a == "failonce" || (a == "readorid" && ph == "" && !maybe):
+				accept = append(accept, []string{"<absorbed>"})
+				continue
+			case a == "setfail":
+				accept = append(accept, []string{"<absorbed>"})
+				ph, maybe = val, false
+				continue
+			}
+		}
+		if a == "failonce" {
+			if mw == "retry" {
+				// the second run of the same item succeeds and sees what the first run saw
+				accept = append(accept, obs)
+				continue
+			}
+			a = "fail"
 		}
 		switch a {
 		case "set":
@@ -246,7 +303,8 @@ func c15Run(t *testing.T, c c15Case) (sig string, err error) {
 	if syncCount(c) == 0 {
 		b = nil
 	}
-	exec := c15Executor(b)
+	c15MW = c.ItemMiddleware
+	exec := c15Executor(b, c.ItemMiddleware)
 	var mu sync.Mutex
 	var first error
 	record := func(e error) {
@@ -333,7 +391,7 @@ func c15Run(t *testing.T, c c15Case) (sig string, err error) {
 
 func TestC15Placeholder(t *testing.T) {
 	const name = "TestC15Placeholder"
-	rec := evid.New("C15", name, "1..4 connections (through a real Server over an in-memory listener in a synctest bubble) or 2..6 goroutines calling HandleRequest directly, each issuing 0..2 requests that are rejected at message level (unsupported version, batch count mismatch, Undo) followed by 1..4 requests of 1..6 placeholder actions (set / read / read-or-id / clear / fail / set-then-fail, each item optionally carrying a non-critical message extension); "+
+	rec := evid.New("C15", name, "1..4 connections (through a real Server over an in-memory listener in a synctest bubble) or 2..6 goroutines calling HandleRequest directly, each issuing 0..2 requests that are rejected at message level (unsupported version, batch count mismatch, Undo) followed by 1..4 requests of 1..6 placeholder actions (set / read / read-or-id / clear / fail / set-then-fail / fail on the first run only, each item optionally carrying a non-critical message extension); the executor has no batch item middleware, a pass-through one, one that turns a handler error into a successful item, or one that runs a failed item once more; "+
 		"rendezvous items inside the first request of every connection force the requests to overlap in time at chosen items; values are unique per request; oracle: per-request placeholder model (empty at start, set visible to later items, never a foreign value); "+
 		"non-trivial = set followed by read in a request that overlaps another one, or a second request on a connection after a set; distinct by case").Attach(t)
 	if rp := evid.LoadReplay(name); rp != nil {
@@ -346,9 +404,9 @@ func TestC15Placeholder(t *testing.T) {
 		}
 		return
 	}
-	actions := []string{"set", "set", "read", "read", "readorid", "clear", "fail", "setfail"}
+	actions := []string{"set", "set", "read", "read", "readorid", "clear", "fail", "setfail", "failonce"}
 	rapid.Check(t, func(rt *rapid.T) {
-		c := c15Case{Direct: rapid.Bool().Draw(rt, "direct")}
+		c := c15Case{Direct: rapid.Bool().Draw(rt, "direct"), ItemMiddleware: rapid.SampledFrom([]string{"", "", "pass", "absorb", "retry"}).Draw(rt, "item-middleware")}
 		nconn := rapid.IntRange(1, 4).Draw(rt, "connections")
 		if c.Direct {
 			nconn = rapid.IntRange(2, 6).Draw(rt, "goroutines")
@@ -405,7 +463,7 @@ func TestC15Placeholder(t *testing.T) {
 			c.Conns = append(c.Conns, reqs)
 		}
 		key, _ := json.Marshal(c)
-		rec.Case(nt, key, fmt.Sprintf("direct=%v", c.Direct), fmt.Sprintf("syncs=%d", syncs))
+		rec.Case(nt, key, fmt.Sprintf("direct=%v", c.Direct), fmt.Sprintf("syncs=%d", syncs), "item-middleware="+c.ItemMiddleware)
 		if nt && rec.WantSample() && len(key) < 1200 {
 			rec.Sample(c)
 		}
